@@ -582,7 +582,8 @@ def _scattering_angles_with_gravity_generic(
     x = sc.dot(scattered_beam, ex).to(dtype=elem_dtype(y), copy=False)
     phi = sc.atan2(y=y, x=x, out=y)
 
-    drop = drop_distance * (gravity / sc.norm(gravity))
+    # The detected beam is raised *against* gravity: b2' = b2 + delta * e_y, e_y = -g/|g|.
+    drop = drop_distance * ey
     drop += scattered_beam
     return {
         'two_theta': two_theta(incident_beam=incident_beam, scattered_beam=drop).to(
